@@ -153,6 +153,14 @@ impl Dmd {
     }
 }
 
+#[cfg(dmd_core_verif)]
+impl Dmd {
+    /// Direct access to the two halves of the machine.
+    pub fn verif_parts(&mut self) -> (&mut Cpu, &mut Bus) {
+        (&mut self.cpu, &mut self.bus)
+    }
+}
+
 //
 // Provide a C interface
 //
